@@ -32,7 +32,8 @@ func PropagateLookaheads(m *Model) error {
 	for _, nt := range m.Nonterms {
 		used.ClearAll(len(m.Params))
 		usedLA(m, nt.Value, func(param int, _ status.SourceNode) { used.Set(param) })
-		required := used.Slice(reuse)
+		// Note: "reuse" is overwritten by every Slice() call below, requiredFlags needs its own copy.
+		required := append([]int(nil), used.Slice(reuse)...)
 		state = append(state, nontermExt{pending: closure.Add(required), requiredFlags: required})
 	}
 	for i, nt := range m.Nonterms {
